@@ -758,3 +758,17 @@ def rule_capacity_init(k):
                     k.ok("C05.capacity-init")
                 else:
                     k.fail("C05.capacity-init", kind, f"{cap}", f"growable array's initial capacity {pp(init) if init is not None else None} is not a positive constant: doubling may not grow it")
+
+
+def rule_compute_writes(k):
+    """C04.5: every store of the compute kernel is bounded by the size assemble's final realloc gave the
+    value array ((cursor + 1) * trailing dense dims, cursors monotone)."""
+    a = Analysis(k, "compute")
+    k.instance("C04.compute-writes")
+    fails = [(r, s, m) for r, s, m in a.run() if r == "C05.writes"]
+    seen = set()
+    for r, s, m in fails:
+        if (s, m) not in seen:
+            seen.add((s, m))
+            k.fail("C04.compute-writes", "compute", s, m)
+    k.ok("C04.compute-writes", max(0, a.counts["writes"] - len(seen)), sample=f"{a.counts['writes']} stores of compute inside the assembled value array")
